@@ -12,6 +12,8 @@ ENABLED = set((Path(__file__).parent / 'enabled.txt').read_text().split())
 
 CHECKS = {}
 for f in sorted((Path(__file__).parent / 'props').glob('c[0-9][0-9].py')):
+    if f.stem.upper() not in ENABLED:
+        continue
     mod = importlib.import_module(f'harness.props.{f.stem}')
     m = getattr(mod, 'MANIFEST', None)
     if m and f.stem.upper() in ENABLED:
